@@ -582,6 +582,43 @@ def check_dependencies_complete(ctx: Ctx, rule: str):
         ctx.check(okd, rule, fd.key("complete"), "every `variable` subtree is a dependency", f"Expression._find_dependencies collects {_avf.show(fv)[:140]}, not the name of every `variable` node of the expression tree (a used name could be missing from the dependency graph and be defined after its use)", fd.where())
 
 
+def conditional_builder(ctx: Ctx, rule: str):
+    """The obligations of the front end that are about sympytools.Conditional, recorded under `rule` (the scheme
+    builders construct their zero-division guard with it)."""
+    from sa import core as _core
+
+    sub = _core.Ctx(ctx.prop, ctx.repo, ctx.tier, ctx.sm, quiet=True)
+    sub.overlay = getattr(ctx, "overlay", None)
+    front_end(sub, {k: "X." + k for k in "abcde"})
+    n = 0
+    for o in sub.obligations:
+        if o.rule == "X.e" and "::Conditional::" in o.construct:
+            o.rule = rule
+            ctx.obligations.append(o)
+            n += 1
+    if not n:
+        ctx.broken("sympytools.Conditional: no obligation of the conditional builder was produced (anchor vanished)")
+
+
+def tree_walk_complete(ctx: Ctx, rule: str):
+    """The obligations of the front end that say every child of every tree node is built (folds over all operands,
+    functions over all arguments, Conditional / ContinuousConditional over all their children, names looked up in the
+    symbol table), recorded under `rule`: a reference to an undefined name is only noticed where it is looked up."""
+    from sa import core as _core
+
+    sub = _core.Ctx(ctx.prop, ctx.repo, ctx.tier, ctx.sm, quiet=True)
+    sub.overlay = getattr(ctx, "overlay", None)
+    front_end(sub, {k: "X." + k for k in "abcde"})
+    n = 0
+    for o in sub.obligations:
+        if o.rule in ("X.b", "X.d") and "expressions.py::" in o.construct:
+            o.rule = rule
+            ctx.obligations.append(o)
+            n += 1
+    if not n:
+        ctx.broken("expressions.py: no obligation of the tree walk was produced (anchor vanished)")
+
+
 def front_end(ctx: Ctx, R: dict, declare: bool = True):
     """The front end every backend shares: operator table, fold direction, precedence ladder, function vocabulary,
     conditional builders.  R maps 'a'..'e' to the rule ids the obligations are recorded under (C02 / C03 record them
